@@ -527,6 +527,12 @@ def run(ctx):
                 if (d.startswith(A.DR) or d.startswith(A.LR)) and d not in c16.LOOKS:
                     bad.append(d)
         r6.check(not bad, "%s/reader-effects" % h, "%s decides through the look-ahead primitive only (forbidden: %s)" % (h, sorted(set(bad))), fn.loc())
+    # R11: a long comment line, blank run or skipped line is looked at across many refills: that the window survives
+    # appending, realigning and shrinking is the reader's law (C02-R3/R4), run here for the layout freedoms that depend on it
+    from . import c02
+    r11 = ctx.rule("C07-R11", "long comment lines and blank runs: refills append to the window, realigning and shrinking keep it (shared with C02-R3/R4)", floor=6)
+    c02.run_r3(ctx, r11)
+    c02.run_r4(ctx, r11)
     from . import builders
     r10 = ctx.rule("C07-R10", "ignore_unknown_lines (sat_solver_log::Config) is set by its own setter only", floor=2)
     builders.run(ctx, r10, ["flussab_cnf::sat_solver_log::Config"], 1)
